@@ -20,14 +20,30 @@ RULE = ("catalogue of boundary lengths x chunkings + seeded random streams of fr
         "and whole frames of 13, 14, 512, 4096, 65534, 65535 bytes, served whole, 1 byte per read and with 0-byte reads, "
         "+ seeded random reply streams (frames, garbage, frames cut short, injected failures; random read sizes); "
         "a panic of the client is recovered per case and reported as a violation under the case id; "
+        "ServeTCP after a failed reply write (ids tcpr:N): on one server a slow query followed by one the handler rejects (the server closes the connection "
+        "and the slow reply is written to the closed connection), or a connection whose Write returns an error; then on a second connection 1-3 rounds of 2-6 queries "
+        "whose replies, all in the byte-pool size class of the failed one, are packed before any of them is written (barrier handler; one P and no GC while the case runs): "
+        "every query of a round gets exactly one intact frame with its own id and answer, one Write per frame; "
+        "ServeDoQ behind a real quic-go listener on loopback (ids doqs:N): 2-4 streams on one connection, each opened once the previous query is inside its handler, "
+        "handlers released in random order, all at once or one reply at a time: every stream carries exactly one frame, the answer to the query sent on it, then FIN; "
         "a case is non-trivial when it has more than one segment, a 0/1-byte chunking, a boundary length "
         "(0,1,11..14,65534..65536) or concurrent replies (a DoQ case: anything but one whole frame of an ordinary size read in large pieces); distinct = distinct Gallina literal")
+# a panic inside one of pkg/server's own goroutines (e.g. a handler that finds its stream gone) kills the driver: that is a
+# failing observation of "never a panic", not a harness error
+CRASH_VIOLATION = [
+    (r"(panic: |fatal error: )[^\n]*\n(?:[^\n]*\n){0,60}?[^\n]*IrineSistiana/mosdns/v5/pkg/(server|dnsutils|pool)\b",
+     "the server (pkg/server) or the framing code crashed while serving the driver's connections"),
+]
+
 ASSUMPTIONS = [
     "one net.Conn.Write call is delivered contiguously (Go runtime / kernel)",
     "io.ReadFull semantics as modelled by Model.Framing.read_full_aux (checked by the differential run)",
     "miekg/dns Pack is the reference packing for PackTCPBuffer cases",
     "the DoQ cases see quic-go only through harness/quicx: Write delivers the bytes or fails, Close is the FIN of the send side, "
     "Read blocks until the peer answered and ends with io.EOF, a reset or a deadline is a non-EOF read error, CancelRead unblocks Read",
+    "the ServeTCP round cases run with GOMAXPROCS(1) and the collector off (both restored afterwards) so that sync.Pool hands buffers out in a fixed order; "
+    "the handler's barrier (all replies of a round packed before one is returned to the server) is the schedule the harness forces",
+    "the ServeDoQ cases use quic-go itself (listener and client on 127.0.0.1, self-signed certificate from pkg/utils): stream delivery, FIN and deadlines are quic-go's",
 ]
 TRUSTED_BASE = [
     "hand-written model coq/Model/Framing.v tied to pkg/dnsutils/net_io.go, pkg/pool/msg_buf.go, "
@@ -41,7 +57,9 @@ LEVEL_TEXT = ("Theorems in coq/Properties/C16.v, for every message, every stream
               "bytes, oversize is refused, truncated/short/small frames are errors, whole frames in any order decode to the same "
               "messages. The model (Model/Framing.v) is run inside Coq on every case the Go driver observed on the real "
               "readers/writers, the TCP server and the DoQ client (Judge.C16.agree), and the size constants are regenerated from the source. "
-              "For the DoQ client the run also checks, case by case, that a damaged or truncated reply stream comes back as an error and not as a panic.")
+              "For the DoQ client the run also checks, case by case, that a damaged or truncated reply stream comes back as an error and not as a panic. "
+              "For the servers (ServeTCP, ServeDoQ) the run checks on sampled scenarios that every query gets exactly one frame, the unchanged packing of its own answer "
+              "(after a failed reply write and with overlapping handlers); the servers' goroutine structure is not modelled.")
 LEVEL_NOTE = ("Trusted: Coq kernel + vm_compute; hand-written model tied to the code by the differential run and Gen/Constants.v; "
               "atomicity of one net.Conn.Write; io.ReadFull as modelled; miekg Pack as reference packing; quic-go streams as faked by harness/quicx "
               "(the DoQ client is tested against the model on sampled streams, it is not itself modelled beyond 'first frame of the stream, id restored'). No axioms.")
